@@ -380,7 +380,9 @@ func suiteDaemon(h *H) {
 	}
 	reqs := []string{"", "/", ".", "sub", "sub/", "sub/deep/", "a.txt", "..", "../", "../..", "../outside", "../outside/", "../outside/" + canaryName, "../outside/victimfile", "../../outside/",
 		"sub/../..", "sub/../../outside/", "//../", "/..", "./../", "lout", "lout/", "lout/" + canaryName, "lout/cdir/", "labs", "labs/", "labs/" + canaryName, "lfile", "lin", "lin/",
-		"lin/deep/lcd/", "sub/lup", "sub/lup/", "sub/lup/outside/", "sub/deep/lcd/", "sub/deep/lcd/" + canaryName + "-2", out, out + "/", "/" + strings.TrimPrefix(out, "/") + "/", "/etc/", "x", "x/../../outside/", "sub//inner.txt", "./sub/./deep/", "sub/deep/../../../outside/"}
+		"lin/deep/lcd/", "sub/lup", "sub/lup/", "sub/lup/outside/", "sub/deep/lcd/", "sub/deep/lcd/" + canaryName + "-2", out, out + "/", "/" + strings.TrimPrefix(out, "/") + "/", "/etc/", "x", "x/../../outside/", "sub//inner.txt", "./sub/./deep/", "sub/deep/../../../outside/",
+		// repeated and mixed trailing separators behind a link in the last position, and a link reached through ".."
+		"lout//", "lout///", "labs//", "lout/./", "lout//.", "sub/../lout//", "sub/../labs//", "sub/deep/lcd//", "sub/lup//", "lin//", "lout//cdir//", "./lout//", "sub//", "sub/deep//"}
 	pullCase := func(module, req string, os_ optset, extraArg string) {
 		args := []string{"--server", "--sender", os_.flags}
 		if extraArg != "" {
